@@ -201,12 +201,18 @@ class Ed25519Key(PKey):
         return m
 
     def verify_ssh_sig(self, data, msg):
-        if msg.get_text() != self.name:
+        try:
+            if msg.get_text() != self.name:
+                return False
+        except SSHException:
+            # not even a decodable algorithm name: not a valid signature
             return False
 
         try:
             self._verifying_key.verify(data, msg.get_binary())
-        except nacl.exceptions.BadSignatureError:
+        except nacl.exceptions.CryptoError:
+            # BadSignatureError, or nacl's ValueError for a signature that is
+            # not exactly 64 bytes long
             return False
         else:
             return True
